@@ -144,6 +144,8 @@ pub struct DynType {
     pub unit_to_string: fn(usize) -> String,
     // construction and scaling
     pub new_roundtrip: fn(Q) -> Q,
+    /// through an explicit `Clone::clone`
+    pub clone_roundtrip: fn(Q) -> Q,
     pub amt_mul_unit: fn(Q) -> Q,
     pub unit_mul_amt: fn(Q) -> Q,
     pub amt_mul_qty: fn(AmountT, Q) -> Q,
@@ -180,6 +182,7 @@ pub struct DynRate {
     pub term: usize,
     pub per: usize,
     pub new_roundtrip: fn(R4) -> R4,
+    pub clone_roundtrip: fn(R4) -> R4,
     pub from_qty_vals: fn(Q, Q) -> R4,
     pub reciprocal: fn(R4) -> R4,
     pub reciprocal_twice: fn(R4) -> R4,
@@ -220,6 +223,8 @@ macro_rules! __dyn_common {
             display_unit: |i, s| $crate::generated::fmt_dyn(&T::consts()[i], s),
             unit_to_string: |i| T::consts()[i].to_string(),
             new_roundtrip: |q| un::<T>(<T as Quantity>::new(q.0, T::consts()[q.1])),
+            #[allow(clippy::clone_on_copy)]
+            clone_roundtrip: |q| un::<T>(Clone::clone(&mk::<T>(q))),
             amt_mul_unit: |q| un::<T>(q.0 * T::consts()[q.1]),
             unit_mul_amt: |q| un::<T>(T::consts()[q.1] * q.0),
             amt_mul_qty: |k, q| un::<T>(k * mk::<T>(q)),
@@ -417,6 +422,8 @@ macro_rules! dyn_amount_type {
             display_unit: |i, s| $crate::generated::fmt_dyn(&T::consts()[i], s),
             unit_to_string: |i| T::consts()[i].to_string(),
             new_roundtrip: |q| un::<T>(<T as Quantity>::new(q.0, T::consts()[q.1])),
+            #[allow(clippy::clone_on_copy)]
+            clone_roundtrip: |q| un::<T>(Clone::clone(&mk::<T>(q))),
             amt_mul_unit: |q| un::<T>(q.0 * T::consts()[q.1]),
             unit_mul_amt: |q| un::<T>(T::consts()[q.1] * q.0),
             amt_mul_qty: |k, q| un::<T>(k * mk::<T>(q)),
@@ -504,6 +511,8 @@ macro_rules! __dyn_rate_base {
             term: $ti,
             per: $pi,
             new_roundtrip: |r| un_rate::<$TQ, $PQ>(mk_rate::<$TQ, $PQ>(r)),
+            #[allow(clippy::clone_on_copy)]
+            clone_roundtrip: |r| un_rate::<$TQ, $PQ>(Clone::clone(&mk_rate::<$TQ, $PQ>(r))),
             from_qty_vals: |t, p| {
                 un_rate::<$TQ, $PQ>(Rate::<$TQ, $PQ>::from_qty_vals(mk::<$TQ>(t), mk::<$PQ>(p)))
             },
